@@ -292,6 +292,6 @@ pub fn run(tier: Tier) -> i32 {
     let mut ctx = Ctx::new("C10", tier);
     ctx.assume("arrivals are non-overlapping (the code documents the limit as approximate for truly simultaneous arrivals)");
     ctx.assume("the statement is read literally for a second connection of an already connected peer: it is counted like any other arrival");
-    ctx.run_part(Histories, tier.pick(12_000, 250_000));
+    ctx.run_part(Histories, tier.pick(12_000, 700_000));
     ctx.finish()
 }
